@@ -284,7 +284,9 @@ func runC02(c *eng.Ctx) {
 		ev := c.One(cb, eng.CallTo(scT+".evict"), "c.evict(entry)")
 		fs := facts.At(ev.Instr)
 		zero := facts.Find(fs, "eq", eng.DescSuffix(".ref"), eng.DescIs("0"))
-		exp := facts.Find(fs, "lt", func(d string, _ ssa.Value) bool { return strings.Contains(d, "ttl") || strings.Contains(d, "Milliseconds") }, func(d string, _ ssa.Value) bool { return strings.Contains(d, ".last") })
+		exp := facts.Find(fs, "lt", func(d string, _ ssa.Value) bool {
+			return strings.Contains(d, "ttl") || strings.Contains(d, "Milliseconds")
+		}, func(d string, _ ssa.Value) bool { return strings.Contains(d, ".last") })
 		c.Check(len(zero) > 0, "evict-only-unreferenced", ev.Instr, cb, "time-based cleanup closes a reader only when no snapshot holds it (ref == 0)", "facts: "+strings.Join(facts.Render(fs), " ; "))
 		c.Check(len(exp) > 0, "evict-only-expired", ev.Instr, cb, "and only when it has not been used for the ttl", "facts: "+strings.Join(facts.Render(fs), " ; "))
 		exc := map[string]string{"kv/table.NewCache": "constructor"}
@@ -318,10 +320,10 @@ func runC02(c *eng.Ctx) {
 func snapshotTypestate(c *eng.Ctx) {
 	p := c.P
 	transfer := map[string]string{
-		"index.NewIndexKVStore":    "stored in indexKVStore.snapshot, closed and replaced by Flush",
-		"index.indexKVStore.Flush": "the new snapshot replaces indexKVStore.snapshot (the old one is closed in the same hold)",
-		"kv.family.GetSnapshot":    "forwarding method: returns the snapshot to its caller",
-		"kv.family.doRollupWork":   "closed by the deferred block of the function",
+		"index.NewIndexKVStore":      "stored in indexKVStore.snapshot, closed and replaced by Flush",
+		"index.indexKVStore.Flush":   "the new snapshot replaces indexKVStore.snapshot (the old one is closed in the same hold)",
+		"kv.family.GetSnapshot":      "forwarding method: returns the snapshot to its caller",
+		"kv.family.doRollupWork":     "closed by the deferred block of the function",
 		"tsdb.dataFamily.fileFilter": "closed by the deferred block unless a filter result set takes ownership of it",
 	}
 	acquire := eng.AnyCallTo("kv.Family.GetSnapshot", "kv.family.GetSnapshot", "kv/version.FamilyVersion.GetSnapshot", fvT+".GetSnapshot")
